@@ -14,7 +14,8 @@ Definition hash_impl (c : content) : str :=
 
 Definition base_doc (b : Z) : option content :=
   if b =? 0 then Some (mkC 0 0 true false true true)
-  else if b =? 1 then Some (mkC 1 0 false false true true)
+  (* document 1 is document 0 without its code: setting the code makes them the same document *)
+  else if b =? 1 then Some (mkC 0 0 false false true true)
   else if b =? 2 then Some (mkC 2 0 true false true false)
   else if b =? 3 then Some (mkC 3 0 true false false false)
   else None.
